@@ -63,6 +63,7 @@ type Unit struct {
 	noMerge   bool
 	entryVariant []T // values of the `decreases` clauses at entry (self-recursion variant)
 	deadBlocks   []string
+	aliasCache   map[*ssa.Function]map[string]string // rename tolerance: old name -> new name per function
 	pruned       []prunedBranch // branches the solver found infeasible
 	deadAfterCall []string      // ... whose condition depends on the result of a call replaced by a contract and whose target no path reaches
 	reached      map[*ssa.BasicBlock]bool // basic blocks some explored path entered (vacuity guard: dead code)
@@ -897,6 +898,14 @@ func (u *Unit) execSimple(st *State, in ssa.Instruction) {
 		st.cells[c] = u.zero(et)
 		if x.Comment != "" {
 			fr.named[x.Comment] = c
+			for oldN, newN := range u.aliasesOf(fr.fn) {
+				if newN == x.Comment {
+					if _, taken := fr.named[oldN]; !taken {
+						fr.named[oldN] = c
+						u.note("contract identifier " + oldN + " rebound to renamed local " + newN + " of " + relName(fr.fn) + " (same position and type as on the unchanged tree)")
+					}
+				}
+			}
 		}
 		if names, ok := fr.resultAllocs[x]; ok {
 			for _, n := range names {
